@@ -54,12 +54,12 @@ def _clauses(n, explicit):
         if explicit and len(members) == n:
             ens.append(("C12.explicit_interaction_outcome_is_used", "self._combination_outcomes[%d] == inter[frozenset(names)]" % c))
             continue
-        ens.append(("C12.combination_%s_takes_the_member_farthest_from_baseline" % combos[c],
+        ens.append(("C12+C13.combination_%s_takes_the_member_farthest_from_baseline" % combos[c],
                     "(" + " or ".join("self._combination_outcomes[%d] == self._deltas[%d]" % (c, i) for i in members) + ") and " +
                     " and ".join("abs(self._combination_outcomes[%d]) >= abs(self._deltas[%d])" % (c, i) for i in members)))
     # invariant assumed by the get_outcome contracts
     if not (explicit and n == 1):
-        ens.append(("C12.single_program_combination_is_its_delta",
+        ens.append(("C12+C13.single_program_combination_is_its_delta",
                     " and ".join("self._combination_outcomes[%d] == self._deltas[%d]" % (2 ** (n - 1 - i), i) for i in range(n))))
     return ens
 
@@ -319,3 +319,17 @@ for _tag, _cov, _imp, _exc, _clauses in (
         ensures=_clauses + ([] if _exc else [("C12+C16.the_entry_keeps_what_it_was_given_and_builds_its_outcome_cache_last",
                                               "self.par == 'par' and self.pop == 'adults' and self.baseline == B and self.progs == OUTS and self.progs is not progs and len(BUILT) == 1 and BUILT[0] == self._interactions")]),
         defined_props=["C12", "C16", "C18"])
+
+
+def _replay_covout_init(model, contract):
+    """replay on the REAL Covout constructor: two explicit combination outcomes, and a look at what each combination is given"""
+    import atomica as at
+
+    c = at.programs.Covout(par="par", pop="adults", cov_interaction=None, imp_interaction="p0 + p1 = 0.9, p0+p2=0.5", baseline=0.25, progs={"p0": 0.5, "p1": 0.75, "p2": 0.375})
+    want = {frozenset(["p0", "p1"]): 0.9 - 0.25, frozenset(["p0", "p2"]): 0.5 - 0.25}
+    got = {k: float(v) for k, v in c._interactions.items()}
+    bad = ["%s: given %r, stored %r" % ("+".join(sorted(k)), w, got.get(k)) for k, w in want.items() if got.get(k) != w] + ["unexpected entry %s" % "+".join(sorted(k)) for k in got if k not in want]
+    return dict(verdict="violates" if bad else "holds", detail="; ".join(bad) or "both explicit outcomes are stored relative to the baseline", prestate=dict(imp_interaction="p0 + p1 = 0.9, p0+p2=0.5", baseline=0.25))
+
+
+CONTRACTS["programs:Covout.__init__#two_explicit_outcomes"]["replay_hook"] = _replay_covout_init
